@@ -105,6 +105,160 @@ pub fn expand_tokens(ts: proc_macro2::TokenStream) -> Expansion {
     }
 }
 
+// ------------------------------------------------------------------------------------------ isolated expansion
+//
+// A stack overflow or an abort inside the subject cannot be caught in-process. Checks whose oracle is "the macro
+// terminates with Ok or Err" therefore expand in child processes: a child that dies names the input it was working on.
+
+/// outcome of an expansion that ran in a child process
+#[derive(Clone, Debug)]
+pub enum Iso {
+    Done(Expansion),
+    /// the child process died (signal / abort) while expanding this input
+    Crashed(String),
+    /// no answer within the watchdog time
+    Hung,
+}
+
+/// `vcheck expand-child <file>`: expands every source of the JSON array in <file>, one result line each
+pub fn expand_child(args: &[String]) -> i32 {
+    use std::io::Write;
+    let Some(path) = args.get(1) else { return 2 };
+    let Ok(text) = std::fs::read_to_string(path) else { return 2 };
+    let Ok(list) = serde_json::from_str::<Vec<String>>(&text) else { return 2 };
+    let keep_ok = args.get(2).map(|s| s == "keep-ok").unwrap_or(false);
+    // the same stack rustc gives its main thread by default
+    let h = std::thread::Builder::new().stack_size(8 << 20).spawn(move || {
+        let out = std::io::stdout();
+        for src in list {
+            let r = expand_src(&src);
+            let (t, m) = match &r {
+                Expansion::Ok(s) => ("ok", if keep_ok { s.clone() } else { String::new() }),
+                Expansion::Err(m) => ("err", m.clone()),
+                Expansion::Panic(m) => ("panic", m.clone()),
+                Expansion::Unparsable(m) => ("unparsable", m.clone()),
+            };
+            let mut o = out.lock();
+            let _ = writeln!(o, "{}", serde_json::json!({"t": t, "m": m}));
+            let _ = o.flush();
+        }
+    });
+    match h.map(|h| h.join()) {
+        Ok(Ok(())) => 0,
+        _ => 3,
+    }
+}
+
+/// expand `sources` in `workers` child processes; a crash is attributed to the input that was being expanded and
+/// the rest of the chunk continues in a fresh child
+pub fn expand_isolated(tag: &str, sources: &[String], keep_ok: bool) -> Vec<Iso> {
+    use rayon::prelude::*;
+    let dir = work_dir(tag);
+    let exe = std::env::current_exe().expect("current exe");
+    let workers = 16usize;
+    let chunk = ((sources.len() + workers - 1) / workers).max(1);
+    let chunks: Vec<(usize, &[String])> = sources.chunks(chunk).enumerate().collect();
+    let parts: Vec<Vec<Iso>> = chunks
+        .par_iter()
+        .map(|(ci, list)| {
+            let mut out: Vec<Iso> = Vec::with_capacity(list.len());
+            let mut start = 0usize;
+            let mut respawns = 0;
+            while start < list.len() {
+                let f = dir.join(format!("chunk_{ci}_{start}.json"));
+                std::fs::write(&f, serde_json::to_string(&list[start..].to_vec()).unwrap()).unwrap();
+                let mut cmd = Command::new(&exe);
+                cmd.arg("expand-child").arg(&f);
+                if keep_ok {
+                    cmd.arg("keep-ok");
+                }
+                cmd.stdout(std::process::Stdio::piped()).stderr(std::process::Stdio::piped());
+                let res = run_with_timeout(cmd, 240);
+                let _ = std::fs::remove_file(&f);
+                let (stdout, status_txt, timed_out) = res;
+                let mut got = 0usize;
+                for l in stdout.lines() {
+                    let Ok(v) = serde_json::from_str::<serde_json::Value>(l) else { continue };
+                    let m = v["m"].as_str().unwrap_or("").to_string();
+                    out.push(Iso::Done(match v["t"].as_str().unwrap_or("") {
+                        "ok" => Expansion::Ok(m),
+                        "err" => Expansion::Err(m),
+                        "panic" => Expansion::Panic(m),
+                        _ => Expansion::Unparsable(m),
+                    }));
+                    got += 1;
+                }
+                start += got;
+                if start >= list.len() {
+                    break;
+                }
+                // the child stopped early: the next input is the one it was working on
+                out.push(if timed_out { Iso::Hung } else { Iso::Crashed(status_txt) });
+                start += 1;
+                respawns += 1;
+                if respawns > 40 {
+                    // give up on the rest of this chunk (reported by the caller as inconclusive through the count)
+                    while start < list.len() {
+                        out.push(Iso::Hung);
+                        start += 1;
+                    }
+                }
+            }
+            out
+        })
+        .collect();
+    let _ = std::fs::remove_dir_all(&dir);
+    parts.into_iter().flatten().collect()
+}
+
+/// run a command, kill it after `secs` seconds; returns (stdout, how it ended, timed out)
+fn run_with_timeout(mut cmd: Command, secs: u64) -> (String, String, bool) {
+    use std::io::Read;
+    let Ok(mut child) = cmd.spawn() else { return (String::new(), "could not spawn".into(), false) };
+    let mut so = child.stdout.take().unwrap();
+    let mut se = child.stderr.take().unwrap();
+    let t1 = std::thread::spawn(move || {
+        let mut s = String::new();
+        let _ = so.read_to_string(&mut s);
+        s
+    });
+    let t2 = std::thread::spawn(move || {
+        let mut s = String::new();
+        let _ = se.read_to_string(&mut s);
+        s
+    });
+    let start = std::time::Instant::now();
+    let mut timed_out = false;
+    let status = loop {
+        match child.try_wait() {
+            Ok(Some(st)) => break Some(st),
+            Ok(None) => {
+                if start.elapsed().as_secs() > secs {
+                    let _ = child.kill();
+                    timed_out = true;
+                    break child.wait().ok();
+                }
+                std::thread::sleep(std::time::Duration::from_millis(20));
+            },
+            Err(_) => break None,
+        }
+    };
+    let stdout = t1.join().unwrap_or_default();
+    let stderr = t2.join().unwrap_or_default();
+    let how = match status {
+        Some(st) => {
+            use std::os::unix::process::ExitStatusExt;
+            let last = stderr.lines().rev().find(|l| !l.trim().is_empty()).unwrap_or("").chars().take(160).collect::<String>();
+            match st.signal() {
+                Some(sig) => format!("killed by signal {sig}: {last}"),
+                None => format!("exit status {:?}: {last}", st.code()),
+            }
+        },
+        None => "unknown".into(),
+    };
+    (stdout, how, timed_out)
+}
+
 // ------------------------------------------------------------------------------------------ Engine R
 
 pub const VERIF: &str = "/verif";
